@@ -60,7 +60,10 @@ pub fn number_regex_parser(config: &SmartCalcConfig, tokinizer: &mut Tokinizer, 
                     false => (&config.thousand_separator[..], &config.decimal_seperator[..])
                 };
 
-                number = match decimal.as_str().replace(thousand_separator, "").replace(decimal_seperator, ".").parse::<f64>() {
+                /* A comma or full stop that follows the digits ("May 31, 1926", "12.") is punctuation, whatever the separators are */
+                let normalized = decimal.as_str().replace(thousand_separator, "").replace(decimal_seperator, ".");
+                let parsed = normalized.parse::<f64>().or_else(|_| normalized.trim_end_matches(|ch| ch == '.' || ch == ',').parse::<f64>());
+                number = match parsed {
                     Ok(num) => {
                         number_match = Some(decimal);
                         match capture.name("NOTATION") {
